@@ -190,6 +190,13 @@ Lemma ipver_some obs sig d : distance_ip_version obs sig = Some d -> d = 0.
 Proof. unfold distance_ip_version, tq_high. destruct sig, obs; cbn; congruence. Qed.
 Lemma ttl_some obs sig d : distance_ttl obs sig = Some d -> d = 0 \/ d = 2.
 Proof. unfold distance_ttl. destruct obs, sig; try discriminate; apply high_or_le. Qed.
+Lemma div_exact w m k : 0 < m -> ((k =? w / m) && (w mod m =? 0)) = (w =? k * m).
+Proof.
+  intros Hm. destruct (w =? k * m) eqn:E.
+  - apply N.eqb_eq in E. subst. rewrite N.div_mul, N.mod_mul by lia. rewrite !N.eqb_refl. reflexivity.
+  - apply N.eqb_neq in E. destruct (k =? w / m) eqn:A, (w mod m =? 0) eqn:B; try reflexivity.
+    exfalso. apply E. apply N.eqb_eq in A, B. pose proof (N.div_mod' w m) as H. rewrite B, <- A in H. lia.
+Qed.
 Lemma win_some obs sig m d : distance_window_size obs sig m = Some d -> d = 0 \/ d = 2.
 Proof.
   unfold distance_window_size, tq_high, tq_low.
@@ -276,16 +283,17 @@ Proof.
     + rewrite andb_true_r, negb_false_iff, ttl_eqb_eq in Hk. discriminate.
 Qed.
 
-Lemma win_instance_zero sw ow m :
-  win_inst sw ow m -> match sw, ow with WMod _, WValue _ => true | _, _ => false end = false ->
-  distance_window_size ow sw m = Some 0.
+Lemma rem_is_zero w n : 0 < n -> option_eqb N.eqb (checked_rem w n) (Some 0) = (w mod n =? 0).
+Proof. intros H. unfold checked_rem. replace (n =? 0) with false by lia. reflexivity. Qed.
+
+Lemma win_instance_zero sw ow m : win_inst sw ow m -> distance_window_size ow sw m = Some 0.
 Proof.
-  intros [->|[->|[(k & mv & -> & -> & Hm & ->)|(n & w & -> & Hn & -> & Hw)]]] Hk.
+  intros [->|[->|[(k & mv & -> & -> & Hm & ->)|(n & w & -> & Hn & -> & Hw)]]].
   - destruct ow; reflexivity.
   - destruct sw; cbn; unfold high_or; rewrite ?N.eqb_refl; reflexivity.
   - cbn. unfold checked_div. replace (mv =? 0) with false by lia. unfold high_or.
-    rewrite N.div_mul by lia. rewrite N.eqb_refl. reflexivity.
-  - discriminate.
+    rewrite rem_is_zero by exact Hm. rewrite div_exact by exact Hm. rewrite N.eqb_refl. reflexivity.
+  - cbn. unfold high_or. rewrite rem_is_zero by exact Hn. replace (w mod n =? 0) with true by lia. reflexivity.
 Qed.
 
 Theorem tcp_instance_zero s o :
@@ -293,12 +301,12 @@ Theorem tcp_instance_zero s o :
   tcp_distance s o = Some 0 /\ tcp_score 0 = 100.
 Proof.
   intros Hu [H0 H1 H2 H3 H4 H5 H6 H7 H8] Hk. split; [|reflexivity].
-  unfold known_tcp, ttl_form_gap, win_mod_raw in Hk. apply orb_false_elim in Hk. destruct Hk as [Hk1 Hk2].
+  unfold known_tcp, ttl_form_gap in Hk. rename Hk into Hk1.
   rewrite tcp_distance_sum.
   replace (tcp_decisive_mismatch_b s o) with false.
   2:{ symmetry. apply not_true_iff_false. rewrite tcp_decisive_mismatch_b_iff.
       intros [X|[X|[X|X]]]; contradiction. }
-  rewrite (ttl_instance_zero _ _ Hu H1 Hk1), (win_instance_zero _ _ _ H4 Hk2). cbn [obind].
+  rewrite (ttl_instance_zero _ _ Hu H1 Hk1), (win_instance_zero _ _ _ H4). cbn [obind].
   unfold c_olen, c_mss, c_wscale. rewrite H2, N.eqb_refl.
   rewrite (proj2 (optfield_inst_b_iff _ _) H3), (proj2 (optfield_inst_b_iff _ _) H5). reflexivity.
 Qed.
@@ -322,13 +330,11 @@ Section SingleField.
     destruct Hi as [H0 _ _ _ _ _ H6 H7 H8]. unfold tcp_decisive_mismatch. rewrite E0, E1, E2, E3. tauto.
   Qed.
   Let Hk1 : (negb (ttl_eqb (t_ittl o) (t_ittl s)) && match t_ittl s with TtlValue _ => false | _ => true end) = false.
-  Proof. unfold known_tcp in Hk. apply orb_false_elim in Hk. tauto. Qed.
-  Let Hk2 : match t_wsize s, t_wsize o with WMod _, WValue _ => true | _, _ => false end = false.
-  Proof. unfold known_tcp in Hk. apply orb_false_elim in Hk. tauto. Qed.
+  Proof. exact Hk. Qed.
   Let Zt : distance_ttl (t_ittl o) (t_ittl s) = Some 0.
   Proof. apply ttl_instance_zero; [exact Hu | apply Hi | exact Hk1]. Qed.
   Let Zw : distance_window_size (t_wsize o) (t_wsize s) (t_mss o) = Some 0.
-  Proof. apply win_instance_zero; [apply Hi | exact Hk2]. Qed.
+  Proof. apply win_instance_zero. apply Hi. Qed.
   Let Zolen : c_olen s o = 0.
   Proof. unfold c_olen. destruct Hi as [_ _ H2 _ _ _ _ _ _]. rewrite H2, N.eqb_refl. reflexivity. Qed.
   Let Zmss : c_mss s o = 0.
@@ -415,15 +421,23 @@ Lemma win_same_form_exact sw ow m :
 Proof.
   destruct sw, ow; intros H; try contradiction; cbn; unfold high_or, tq_low, tq_high, pen_wsize; reflexivity.
 Qed.
-(* raw window against `mss*k` *)
+(* raw window against `mss*k`: 0 iff the observed MSS is usable and the window is exactly k times it *)
 Lemma win_raw_vs_mss k w m :
   distance_window_size (WValue w) (WMss k) m =
-  Some (match m with Some mv => if (0 <? mv) && (w / mv =? k) then 0 else pen_wsize | None => pen_wsize end).
+  Some (match m with Some mv => if (0 <? mv) && (w =? k * mv) then 0 else pen_wsize | None => pen_wsize end).
 Proof.
   cbn. destruct m as [mv|]; [|reflexivity]. unfold checked_div. destruct (mv =? 0) eqn:E.
   - replace (0 <? mv) with false by lia. reflexivity.
   - replace (0 <? mv) with true by lia. cbn [andb]. unfold high_or, tq_low, tq_high, pen_wsize.
-    rewrite N.eqb_sym. reflexivity.
+    rewrite rem_is_zero, div_exact by lia. reflexivity.
+Qed.
+(* raw window against `%n`: 0 iff n > 0 divides it *)
+Lemma win_raw_vs_mod n w m :
+  distance_window_size (WValue w) (WMod n) m = Some (if (0 <? n) && (w mod n =? 0) then 0 else pen_wsize).
+Proof.
+  cbn. unfold high_or, tq_low, tq_high, pen_wsize, checked_rem. destruct (n =? 0) eqn:E.
+  - replace (0 <? n) with false by lia. reflexivity.
+  - replace (0 <? n) with true by lia. reflexivity.
 Qed.
 
 (* ------------------------------------------------------------------ HTTP: header walk *)
@@ -667,15 +681,6 @@ Proof.
   split; [cbn; lia|]. split; [apply tcp_instance_b_iff; vm_compute; reflexivity|].
   split; [vm_compute; reflexivity | vm_compute; discriminate].
 Qed.
-(* K2: signature window `%8192`, observed raw window 16384: rejected *)
-Lemma Known_win_mod_raw_refuted :
-  exists s o, ttl_u8 (t_ittl s) /\ tcp_instance s o /\ win_mod_raw s o = true /\ tcp_distance s o <> Some 0.
-Proof.
-  exists (w_tcp (TtlValue 64) (WMod 8192)), (w_tcp (TtlDistance 54 10) (WValue 16384)).
-  split; [cbn; lia|]. split; [apply tcp_instance_b_iff; vm_compute; reflexivity|].
-  split; [vm_compute; reflexivity | vm_compute; discriminate].
-Qed.
-
 Definition w_hdr (opt : bool) (n : bytes) (v : option bytes) : header := {| h_optional := opt; h_name := n; h_value := v |}.
 (* K3: token `curl`, observed User-Agent software `curl/7.88`: penalty 3 (quality 0.8) instead of 0 *)
 Lemma Known_expsw_strict_refuted :
@@ -754,7 +759,9 @@ Lemma ttl_window_components :
   /\ (forall sw ow m, win_same_form sw ow ->
                       distance_window_size ow sw m = Some (if window_size_eqb ow sw then 0 else pen_wsize))
   /\ (forall k w m, distance_window_size (WValue w) (WMss k) m =
-                    Some (match m with Some mv => if (0 <? mv) && (w / mv =? k) then 0 else pen_wsize | None => pen_wsize end)).
+                    Some (match m with Some mv => if (0 <? mv) && (w =? k * mv) then 0 else pen_wsize | None => pen_wsize end))
+  /\ (forall n w m, distance_window_size (WValue w) (WMod n) m =
+                    Some (if (0 <? n) && (w mod n =? 0) then 0 else pen_wsize)).
 Proof.
   repeat split; intros.
   - apply ttl_component_values.
@@ -762,6 +769,7 @@ Proof.
   - apply win_component_values.
   - now apply win_same_form_exact.
   - apply win_raw_vs_mss.
+  - apply win_raw_vs_mod.
 Qed.
 
 Lemma http_single_field s o :
@@ -828,23 +836,22 @@ Lemma ttl_admit_zero s o :
   ttl_u8 (t_ittl s) -> known_tcp s o = false -> ttl_inst_b (t_ittl s) (t_ittl o) = true ->
   distance_ttl (t_ittl o) (t_ittl s) = Some 0.
 Proof.
-  intros Hu Hk Ha. unfold known_tcp, ttl_form_gap in Hk. apply orb_false_elim in Hk. destruct Hk as [Hk _].
+  intros Hu Hk Ha. unfold known_tcp, ttl_form_gap in Hk.
   apply ttl_instance_zero; [exact Hu | now apply ttl_inst_b_iff | exact Hk].
 Qed.
 Lemma win_admit_zero s o :
   known_tcp s o = false -> win_inst_b (t_wsize s) (t_wsize o) (t_mss o) = true ->
   distance_window_size (t_wsize o) (t_wsize s) (t_mss o) = Some 0.
 Proof.
-  intros Hk Ha. unfold known_tcp, win_mod_raw in Hk. apply orb_false_elim in Hk. destruct Hk as [_ Hk].
-  apply win_instance_zero; [now apply win_inst_b_iff | exact Hk].
+  intros _ Ha. apply win_instance_zero. now apply win_inst_b_iff.
 Qed.
 
 Theorem tcp_single_field_off_exact f s o :
-  ttl_u8 (t_ittl s) -> known_tcp s o = false -> win_mss_inexact s o = false ->
+  ttl_u8 (t_ittl s) -> known_tcp s o = false ->
   single_field_off f s o = true -> field_differs_comparably f s o = true ->
   tcp_distance s o = Some (field_penalty f).
 Proof.
-  intros Hu Hk Hk5 Hoff Hcmp. unfold single_field_off in Hoff.
+  intros Hu Hk Hoff Hcmp. unfold single_field_off in Hoff.
   rewrite !andb_true_iff, !negb_true_iff in Hoff. destruct Hoff as [[Hdec Hnot] Hall].
   cbn [forallb all_tcp_fields] in Hall. rewrite !andb_true_iff in Hall.
   destruct Hall as (A1 & A2 & A3 & A4 & A5 & _).
@@ -868,25 +875,13 @@ Proof.
     rewrite (ttl_admit_zero s o Hu Hk A1), A2, A3, A5.
     assert (E : distance_window_size (t_wsize o) (t_wsize s) (t_mss o) = Some pen_wsize).
     { unfold win_inst_b in Hnot. apply orb_false_elim in Hnot. destruct Hnot as [Hne Hraw].
-      unfold win_mss_inexact in Hk5.
       destruct (t_wsize s) as [k|k|w|n|], (t_wsize o) as [k'|k'|w'|n'|]; try discriminate;
-        cbn in Hne; cbn; unfold high_or, tq_low, tq_high, pen_wsize; try (rewrite Hne; reflexivity).
-      destruct (t_mss o) as [m|]; [|discriminate]. unfold checked_div.
-      replace (m =? 0) with false by lia.
-      replace (k =? w' / m) with false by lia. reflexivity. }
+        cbn in Hne; try (cbn; unfold high_or, tq_low, tq_high, pen_wsize; rewrite Hne; reflexivity).
+      - rewrite win_raw_vs_mss. destruct (t_mss o) as [m|]; [|reflexivity]. rewrite Hraw. reflexivity.
+      - rewrite win_raw_vs_mod. rewrite Hraw. reflexivity. }
     rewrite E. reflexivity.
   - (* wscale *)
     rewrite (ttl_admit_zero s o Hu Hk A1), (win_admit_zero s o Hk A4), Hnot, A2, A3. reflexivity.
-Qed.
-
-(* K5 witness: window 5841 with MSS 1460 against `mss*4`: differs from the instance 5840, costs 0 *)
-Lemma Known_win_mss_inexact_refuted :
-  exists s o, ttl_u8 (t_ittl s) /\ known_tcp s o = false /\ single_field_off FWsize s o = true
-              /\ field_differs_comparably FWsize s o = true /\ win_mss_inexact s o = true
-              /\ tcp_distance s o <> Some (field_penalty FWsize).
-Proof.
-  exists (w_tcp (TtlValue 64) (WMss 4)), (w_tcp (TtlDistance 54 10) (WValue 5841)).
-  split; [cbn; lia|]. repeat split; try (vm_compute; reflexivity). vm_compute. discriminate.
 Qed.
 
 (* software string: not containing the token costs exactly 3, unless the token contains it (K3, other direction) *)
@@ -916,7 +911,7 @@ Qed.
 Example tcp_single_field_off_ex :
   let s := w_tcp (TtlValue 64) (WMss 4) in
   let o := set_wscale (w_tcp (TtlDistance 54 10) (WValue 5840)) (Some 8) in
-  ttl_u8 (t_ittl s) /\ known_tcp s o = false /\ win_mss_inexact s o = false /\ single_field_off FWscale s o = true
+  ttl_u8 (t_ittl s) /\ known_tcp s o = false /\ single_field_off FWscale s o = true
   /\ field_differs_comparably FWscale s o = true /\ tcp_distance s o = Some 1.
 Proof. cbn zeta. split; [cbn; lia|]. repeat split; vm_compute; reflexivity. Qed.
 Example http_expsw_off_ex :
